@@ -505,7 +505,7 @@ template <typename TN_, typename TA_, Strategy SG_, typename TH_, typename... TS
 HFSM2_CONSTEXPR(14)
 void
 C_<TN_, TA_, SG_, TH_, TS_...>::deepRequestChangeSelectable(Control& control,
-															const Request HFSM2_IF_TRANSITION_HISTORY(request)) noexcept
+															const Request request) noexcept
 {
 	HFSM2_IF_TRANSITION_HISTORY(control.pinLastTransition(HEAD_ID, request.index));
 
@@ -515,6 +515,8 @@ C_<TN_, TA_, SG_, TH_, TS_...>::deepRequestChangeSelectable(Control& control,
 	HFSM2_ASSERT(requested < WIDTH);
 
 	HFSM2_LOG_SELECT_RESOLUTION(control.context(), HEAD_ID, requested);
+
+	SubStates::wideRequestChangeSelectable(control, request, requested);
 }
 
 // - - - - - - - - - - - - - - - - - - - - - - - - - - - - - - - - - - - - - - -
@@ -605,7 +607,7 @@ template <typename TN_, typename TA_, Strategy SG_, typename TH_, typename... TS
 HFSM2_CONSTEXPR(14)
 void
 C_<TN_, TA_, SG_, TH_, TS_...>::deepRequestSelect(Control& control,
-												  const Request HFSM2_IF_TRANSITION_HISTORY(request)) noexcept
+												  const Request request) noexcept
 {
 	HFSM2_IF_TRANSITION_HISTORY(control.pinLastTransition(HEAD_ID, request.index));
 
@@ -615,6 +617,8 @@ C_<TN_, TA_, SG_, TH_, TS_...>::deepRequestSelect(Control& control,
 	HFSM2_ASSERT(requested < WIDTH);
 
 	HFSM2_LOG_SELECT_RESOLUTION(control.context(), HEAD_ID, requested);
+
+	SubStates::wideRequestSelect(control, request, requested);
 }
 
 // - - - - - - - - - - - - - - - - - - - - - - - - - - - - - - - - - - - - - - -
